@@ -91,6 +91,38 @@ class IfExpConv(ast.NodeTransformer):
         return ast.copy_location(ast.Call(ast.Name("__symx_ifexp", ast.Load()), [node.test, lam(node.body), lam(node.orelse)], []), node)
 
 
+class ReturnIfConv(ast.NodeTransformer):
+    """if c: return a  [else:] return b   ->   return __symx_ifexp(c, lambda: a, lambda: b)   (same lazy, non-forking conditional)"""
+    def __init__(self):
+        self.n = 0
+
+    def _block(self, stmts):
+        out, i = [], 0
+        lam = lambda e: ast.Lambda(ast.arguments(posonlyargs=[], args=[], kwonlyargs=[], kw_defaults=[], defaults=[]), e)
+        while i < len(stmts):
+            st = stmts[i]
+            if isinstance(st, ast.If) and len(st.body) == 1 and isinstance(st.body[0], ast.Return) and st.body[0].value is not None:
+                other = None
+                if len(st.orelse) == 1 and isinstance(st.orelse[0], ast.Return) and st.orelse[0].value is not None:
+                    other, skip = st.orelse[0].value, 1
+                elif not st.orelse and i + 1 < len(stmts) and isinstance(stmts[i + 1], ast.Return) and stmts[i + 1].value is not None:
+                    other, skip = stmts[i + 1].value, 2
+                if other is not None:
+                    self.n += 1
+                    call = ast.Call(ast.Name("__symx_ifexp", ast.Load()), [st.test, lam(st.body[0].value), lam(other)], [])
+                    out.append(ast.copy_location(ast.Return(call), st))
+                    i += skip
+                    continue
+            out.append(st)
+            i += 1
+        return out
+
+    def visit_FunctionDef(self, node):
+        self.generic_visit(node)
+        node.body = self._block(node.body)
+        return node
+
+
 def rewrite(owner, name, if_conversion=False, fstrings=False, ifexp=False):
     """Recompile owner.name from its current source with the requested rewrites. Returns (restore, counts)."""
     fn = owner.__dict__[name] if isinstance(owner, type) else getattr(owner, name)
@@ -104,12 +136,15 @@ def rewrite(owner, name, if_conversion=False, fstrings=False, ifexp=False):
         t = IfConv(); tree = t.visit(tree); counts["if"] = t.n
     if fstrings:
         t = FStr(); tree = t.visit(tree); counts["fstr"] = t.n
+        t = JoinConv(); tree = t.visit(tree); counts["fstr"] += t.n
     if ifexp:
         t = IfExpConv(); tree = t.visit(tree); counts["ifexp"] = t.n
+        t = ReturnIfConv(); tree = t.visit(tree); counts["ifexp"] += t.n
     tree = ast.fix_missing_locations(tree)
     g = raw.__globals__
     g["__symx_ite"] = ite
     g["__symx_fstr"] = fstr
+    g["__symx_join"] = sym_join
     from .real import num_ifexp
     g["__symx_ifexp"] = num_ifexp
     ns = {}
